@@ -3,7 +3,7 @@ from common import COMMON_TB
 CFG = {
     "technique": "Lean 4 theorems about the lease operations of the wtxmgr model on an arbitrary store + differential run of the real wtxmgr.Store (bdb file, build-tagged clock setter) against the model, with an independent Go ledger oracle",
     "level_text": "The lease state machine (lease / other id refused / same id extends / free iff released or stored expiry reached, boundary included / unknown refused / sweep removes exactly the expired / confirmed spend clears / excluded from UnspentOutputs / Balance subtracts once) is proved in Lean for every store, id, instant and duration of the model; the model is tied to wtxmgr by an op-by-op differential run over generated histories (leases interleaved with receipts, spends, confirmations, reorgs, restarts; the instants e-1ns, e, e+1ns, e+-1s of every lease are visited).",
-    "level_note": "Since /repo 4c73b71 LockOutput rounds the expiry up to a whole second and returns what it stores: C12_expiry_exact, C12_expiry_bounds, C12_leased_until_returned_expiry (former finding F8; reverting the fix yields VIOLATION key=lock-result with replay). The lease events refine the Ledger's (C12_lease/_release/_sweep/_clock_refines_partial, C12_leased_refines_partial; partial: chain events are not covered by the refinement). Exclusion from Balance holds after every chain-consistent history (C12_excluded_balance, via C01's invariant). The clock is constant during one call (Go reads it several times).",
+    "level_note": "Since /repo 4c73b71 LockOutput rounds the expiry up to a whole second and returns what it stores: C12_expiry_exact, C12_expiry_bounds, C12_leased_until_returned_expiry (former finding F8; reverting the fix yields VIOLATION key=lock-result with replay). The lease events refine the Ledger's (C12_lease/_release/_sweep/_clock_refines_partial, C12_leased_refines_partial; partial: chain events are not covered by the refinement). Exclusion from Balance holds after every chain-consistent history (C12_excluded_balance, via C01's invariant). The clock is constant during one call (Go reads it several times). UPDATE: the chain events are now proved to preserve the relation too - Lemmas/RefLease.lean derives the `known` clause from the simulation relation (known_of_good / leaseRefines_of_good) and good_lease/_release/_sweep/_clock + good_history (Lemmas/RefAll.lean) show that LeaseRefines holds after EVERY chain-consistent history of events, so the `_partial` suffix of the five theorems is only historical (they are the per-event steps used by that proof).",
     "lean_props": ["BtcwVerif.Props.C12"],
     "engines": ["txstore"],
     "trusted_base": COMMON_TB + [
